@@ -18,3 +18,4 @@ import Ymq.Props.C19Wied
 #print axioms Ymq.C19Wied.ker_p256_none_iff
 #print axioms Ymq.C19Wied.ker_p256_panics
 #print axioms Ymq.C19Wied.detz_early_termination_witness_closed
+#print axioms Ymq.C19Wied.ker_p256_singular
